@@ -387,7 +387,49 @@ func carrierOf(e *html.Node) string {
 
 // ---------- C06 ----------
 
-var rxSrcsetCand = regexp.MustCompile(`(\S+)(\s+[\d.]+[xw])?(\s*(?:,|$))`)
+// srcsetCandidates: the image candidate URLs of a srcset value, as the HTML standard's "parse a
+// srcset attribute" finds them (independent of the library's regular expression): skip white
+// space and commas; the URL is the run of non-white-space characters; if it ends in commas they
+// are stripped and the candidate has no descriptors; otherwise descriptors run up to the next
+// comma outside parentheses.  Candidates whose descriptors a browser would reject are still
+// returned: the oracle asks about URLs only.
+func srcsetCandidates(v string) []string {
+	isWS := func(c byte) bool { return c == ' ' || c == '\t' || c == '\n' || c == '\f' || c == '\r' }
+	var out []string
+	i := 0
+	for {
+		for i < len(v) && (isWS(v[i]) || v[i] == ',') {
+			i++
+		}
+		if i >= len(v) {
+			return out
+		}
+		j := i
+		for j < len(v) && !isWS(v[j]) {
+			j++
+		}
+		u := v[i:j]
+		i = j
+		if strings.HasSuffix(u, ",") {
+			u = strings.TrimRight(u, ",")
+		} else {
+			depth := 0
+			for i < len(v) {
+				c := v[i]
+				if c == '(' {
+					depth++
+				} else if c == ')' && depth > 0 {
+					depth--
+				} else if c == ',' && depth == 0 {
+					i++
+					break
+				}
+				i++
+			}
+		}
+		out = append(out, u)
+	}
+}
 var rxURLTok = regexp.MustCompile(`[ml]\d+`)
 
 func passThrough(v string) bool {
@@ -413,8 +455,8 @@ func oracleC06(rep *Report, x *distilled, replay interface{}) (nRel int) {
 			case "href", "src", "poster", "data-src", "data-original", "data-url", "datasrc":
 				addOrig(a.Val)
 			case "srcset", "data-srcset", "datasrcset":
-				for _, m := range rxSrcsetCand.FindAllStringSubmatch(a.Val, -1) {
-					addOrig(m[1])
+				for _, c := range srcsetCandidates(a.Val) {
+					addOrig(c)
 				}
 			}
 		}
@@ -465,8 +507,8 @@ func oracleC06(rep *Report, x *distilled, replay interface{}) (nRel int) {
 			case a.Key == "poster" && e.Data == "video":
 				check("poster", e.Data, a.Val)
 			case a.Key == "srcset":
-				for _, m := range rxSrcsetCand.FindAllStringSubmatch(a.Val, -1) {
-					check("srcset", e.Data, m[1])
+				for _, c := range srcsetCandidates(a.Val) {
+					check("srcset", e.Data, c)
 				}
 			}
 		}
@@ -657,9 +699,7 @@ func oracleC09(rep *Report, x *distilled, dump *distiller.VerifExtractResult, re
 		if s := getAttr(e, "src"); s != "" {
 			cands = append(cands, s)
 		}
-		for _, m := range rxSrcsetCand.FindAllStringSubmatch(getAttr(e, "srcset"), -1) {
-			cands = append(cands, m[1])
-		}
+		cands = append(cands, srcsetCandidates(getAttr(e, "srcset"))...)
 	}
 	if ok, at := isSubsequence(x.Res.ContentImages, cands); !ok {
 		rep.violate(map[string]string{"clause": "content-images"}, fmt.Sprintf("ContentImages entry %q is not, in order, the src/srcset of an image in the distilled HTML", at), replay)
